@@ -19,6 +19,7 @@ pub struct Ctx {
     pub thorough: bool,
     pub engines: Vec<&'static str>,
     pub counter: u64,
+    pub group: Option<i64>,
     pub stats: std::collections::BTreeMap<String, u64>,
 }
 
@@ -96,6 +97,9 @@ pub fn enc_event(
         .us("sb", sb)
         .int("hint", (ctx.seed.wrapping_mul(31).wrapping_add(id * 7) % 1000) as i64)
         .bool("all", all_slots);
+    if let Some(g) = ctx.group {
+        o = o.int("g", g);
+    }
     if let Some(nz) = nz {
         let dense: Vec<Vec<u8>> = nz.iter().map(|i| orig[*i].clone()).collect();
         o = o.uss("nz", nz.iter()).raw("orignz", &shards_json(&dense));
@@ -112,7 +116,7 @@ pub fn enc_event(
                 } else {
                     k.next_power_of_two()
                 };
-                let items: Vec<String> = sample_js(r, m, ctx.seed ^ id, 48)
+                let items: Vec<String> = sample_js(r, m, ctx.seed, 48)
                     .into_iter()
                     .map(|j| format!("[{},{}]", j, bytes_json(&rec[j])))
                     .collect();
@@ -319,6 +323,530 @@ fn family_c02(ctx: &mut Ctx) {
     }
 }
 
+
+// ======================================================================
+// decode rounds
+
+fn digest_list(items: &[(usize, &[u8])]) -> String {
+    let v: Vec<String> = items
+        .iter()
+        .map(|(i, b)| format!("[{},{},\"{}\"]", i, b.len(), util::fnv_hex(b)))
+        .collect();
+    arr_json(&v)
+}
+
+/// One decode round on a fresh object of (kind, engine): shards arrive in `arrival` order
+/// ((false, i) = original i, (true, j) = recovery j).  Records restored shards as digests next to
+/// the digests of all originals, plus accessor probes.
+#[allow(clippy::too_many_arguments)]
+pub fn dec_event(
+    ctx: &mut Ctx,
+    engine: &str,
+    kind: Option<Kind>,
+    k: usize,
+    r: usize,
+    orig: &[Vec<u8>],
+    rec: &[Vec<u8>],
+    arrival: &[(bool, usize)],
+    probes: &[usize],
+) -> bool {
+    use crate::dut::DecObj;
+    use std::panic::{catch_unwind, AssertUnwindSafe};
+    ops::poison_on(ctx.seed ^ ctx.counter ^ 0xdec);
+    let sb = orig[0].len();
+    let id = ctx.next_id();
+    let rate = rate_used(kind, k, r);
+    let g_o: Vec<usize> = arrival.iter().filter(|a| !a.0).map(|a| a.1).collect();
+    let g_r: Vec<usize> = arrival.iter().filter(|a| a.0).map(|a| a.1).collect();
+    // (restored list in iteration order, probe results) or failure
+    type Out = (Vec<(usize, Vec<u8>)>, Vec<(usize, bool)>, usize);
+    let res: Result<Out, String> = with_engine!(engine, E, {
+        let r0 = catch_unwind(AssertUnwindSafe(|| -> Result<Out, String> {
+            match kind {
+                None => {
+                    let o: Vec<(usize, &Vec<u8>)> = g_o.iter().map(|i| (*i, &orig[*i])).collect();
+                    let rr: Vec<(usize, &Vec<u8>)> = g_r.iter().map(|j| (*j, &rec[*j])).collect();
+                    let m = reed_solomon_simd::decode(k, r, o, rr).map_err(|e| util::err_json(&e))?;
+                    let mut v: Vec<(usize, Vec<u8>)> = m.into_iter().collect();
+                    v.sort();
+                    let pr = probes.iter().map(|p| (*p, v.iter().any(|x| x.0 == *p))).collect();
+                    Ok((v, pr, 0))
+                }
+                Some(kind) => {
+                    let mut d = DecObj::<E>::new(kind, k, r, sb).map_err(|e| util::err_json(&e))?;
+                    for (is_rec, i) in arrival {
+                        if *is_rec {
+                            d.add_recovery(*i, &rec[*i]).map_err(|e| util::err_json(&e))?;
+                        } else {
+                            d.add_original(*i, &orig[*i]).map_err(|e| util::err_json(&e))?;
+                        }
+                    }
+                    let result = d.decode().map_err(|e| util::err_json(&e))?;
+                    let mut it = result.restored_original_iter();
+                    let mut v = Vec::new();
+                    for (i, s) in it.by_ref() {
+                        v.push((i, s.to_vec()));
+                    }
+                    let again = (0..3).filter(|_| it.next().is_some()).count();
+                    let pr = probes
+                        .iter()
+                        .map(|p| {
+                            let got = result.restored_original(*p);
+                            if let Some(b) = got {
+                                // accessor and iterator must expose the same bytes
+                                assert!(v.iter().any(|x| x.0 == *p && x.1 == b), "restored_original({p}) differs from the iterator's shard");
+                            }
+                            (*p, got.is_some())
+                        })
+                        .collect();
+                    Ok((v, pr, again))
+                }
+            }
+        }));
+        match r0 {
+            Ok(x) => x,
+            Err(p) => Err(util::panic_json(&util::panic_message(&*p))),
+        }
+    });
+    // originals that must come back: the driver's own view of what is missing (TLC recomputes it from gO)
+    let given: BTreeSet<usize> = g_o.iter().copied().collect();
+    let missing: Vec<usize> = (0..k).filter(|i| !given.contains(i)).collect();
+    let big = missing.len() > 256;
+    let mut o = Obj::new()
+        .str("ev", "dec")
+        .int("id", id as i64)
+        .str("kind", kind_name(kind))
+        .str("engine", engine)
+        .str("rate", rate)
+        .us("k", k)
+        .us("r", r)
+        .us("sb", sb)
+        .uss("gO", g_o.iter())
+        .uss("gR", g_r.iter());
+    if big {
+        let parts: Vec<&[u8]> = missing.iter().map(|i| orig[*i].as_slice()).collect();
+        o = o.str("odigall", &format!("{:016x}", util::fnv_many(parts)));
+    } else {
+        let all: Vec<(usize, &[u8])> = missing.iter().map(|i| (*i, orig[*i].as_slice())).collect();
+        o = o.raw("odig", &digest_list(&all));
+    }
+    let ok = match res {
+        Ok((v, pr, again)) => {
+            let prs: Vec<String> = pr.iter().map(|(p, s)| format!("[{},{}]", util::enc(*p), s)).collect();
+            if big {
+                let idx: Vec<usize> = v.iter().map(|x| x.0).collect();
+                let parts: Vec<&[u8]> = v.iter().map(|x| x.1.as_slice()).collect();
+                o = o
+                    .uss("ridx", idx.iter())
+                    .bool("rlenok", v.iter().all(|x| x.1.len() == sb))
+                    .str("rdigall", &format!("{:016x}", util::fnv_many(parts)));
+            } else {
+                let items: Vec<(usize, &[u8])> = v.iter().map(|(i, b)| (*i, b.as_slice())).collect();
+                o = o.raw("restored", &digest_list(&items));
+            }
+            o = o.raw("probes", &arr_json(&prs)).us("again", again);
+            true
+        }
+        Err(f) => {
+            o = o.raw("fail", &f);
+            false
+        }
+    };
+    ctx.trace.line(&o.done());
+    ctx.bump(&format!("dec/{}/{}", kind_name(kind), engine));
+    ok
+}
+
+/// Erasure patterns for (k, r): arrival lists with at least k shards.
+fn patterns(rng: &mut impl Rng, k: usize, r: usize, n_random: usize) -> Vec<Vec<(bool, usize)>> {
+    let mut out: Vec<Vec<(bool, usize)>> = Vec::new();
+    let all: Vec<(bool, usize)> = (0..k).map(|i| (false, i)).chain((0..r).map(|j| (true, j))).collect();
+    // everything
+    out.push(all.clone());
+    // all recovery + fewest originals (maximum loss)
+    if r >= k {
+        out.push((0..k).map(|j| (true, r - 1 - j)).collect());
+        out.push((0..k).map(|j| (true, j)).collect());
+    } else {
+        let mut v: Vec<(bool, usize)> = (0..r).map(|j| (true, j)).collect();
+        v.extend((0..k - r).map(|i| (false, k - 1 - i))); // tail originals
+        out.push(v);
+        let mut v: Vec<(bool, usize)> = (0..r).map(|j| (true, j)).collect();
+        v.extend((0..k - r).map(|i| (false, i))); // head originals
+        out.push(v);
+    }
+    // exactly k random, scattered
+    for _ in 0..n_random {
+        let mut a = all.clone();
+        a.shuffle(rng);
+        a.truncate(k + if rng.gen_bool(0.3) { rng.gen_range(0..=r.min(3)) } else { 0 });
+        if a.iter().all(|x| !x.0) {
+            // all originals given: still a legal round (nothing to restore)
+        }
+        out.push(a);
+    }
+    // burst: a contiguous run of originals lost
+    if k >= 2 && r >= 1 {
+        let lost = r.min(k - 1).max(1);
+        let start = rng.gen_range(0..=k - lost);
+        let mut v: Vec<(bool, usize)> = (0..k).filter(|i| *i < start || *i >= start + lost).map(|i| (false, i)).collect();
+        let mut js: Vec<usize> = (0..r).collect();
+        js.shuffle(rng);
+        v.extend(js.into_iter().take(lost).map(|j| (true, j)));
+        v.shuffle(rng);
+        out.push(v);
+    }
+    out
+}
+
+fn family_c01(ctx: &mut Ctx) {
+    let engines = ctx.engines.clone();
+    let mut rng = util::rng(ctx.seed, 1);
+    // small configurations: every (rate,k,r) with k+r <= 7 (thorough 10), several patterns each
+    let lim = if ctx.thorough { 10 } else { 7 };
+    let mut idx = 0usize;
+    for rate in ["high", "low"] {
+        for k in 1..lim {
+            for r in 1..lim {
+                if k + r > lim || !crate::dut::supports_rate(rate, k, r) {
+                    continue;
+                }
+                let dr = ops::default_rate_of(k, r).unwrap_or("none");
+                let sb = *[2usize, 64, 66, 130].choose(&mut rng).unwrap();
+                let orig = originals(ctx.seed, ctx.counter, k, sb);
+                let rec = crate::dut::ref_encode(rate, k, r, &orig);
+                for pat in patterns(&mut rng, k, r, 3) {
+                    idx += 1;
+                    let e = engines[idx % engines.len()];
+                    let kinds = ops::kinds_for(rate, dr, e);
+                    let kd = kinds[(idx / engines.len()) % kinds.len()];
+                    dec_event(ctx, e, kd, k, r, &orig, &rec, &pat, &[0, k - 1, k, usize::MAX]);
+                }
+            }
+        }
+    }
+    // mid-size random configurations
+    let n = if ctx.thorough { 300 } else { 40 };
+    for _ in 0..n {
+        let k = (2f64.powf(rng.gen_range(0.0..9.5)) as usize).clamp(1, 700);
+        let r = (2f64.powf(rng.gen_range(0.0..9.5)) as usize).clamp(1, 700);
+        let rate = if rng.gen_bool(0.5) { "high" } else { "low" };
+        if !crate::dut::supports_rate(rate, k, r) {
+            continue;
+        }
+        let dr = ops::default_rate_of(k, r).unwrap_or("none");
+        let sb = *[2usize, 8, 64, 66].choose(&mut rng).unwrap();
+        let orig = originals(ctx.seed, ctx.counter, k, sb);
+        let rec = crate::dut::ref_encode(rate, k, r, &orig);
+        for pat in patterns(&mut rng, k, r, 1) {
+            let e = *engines.choose(&mut rng).unwrap();
+            let kd = *ops::kinds_for(rate, dr, e).choose(&mut rng).unwrap();
+            dec_event(ctx, e, kd, k, r, &orig, &rec, &pat, &[0, k / 2, k - 1, k, 65536]);
+        }
+    }
+    // envelope boundary at maximum loss
+    for (rate, k, r) in boundary_configs(ctx.thorough) {
+        let dr = ops::default_rate_of(k, r).unwrap_or("none");
+        let orig = originals(ctx.seed, ctx.counter, k, 2);
+        let rec = crate::dut::ref_encode(rate, k, r, &orig);
+        let pats = patterns(&mut rng, k, r, 1);
+        for pat in pats.into_iter().skip(1).take(if ctx.thorough { 3 } else { 2 }) {
+            let e = *engines.iter().filter(|e| **e != "naive" || k + r < 20000).collect::<Vec<_>>().choose(&mut rng).unwrap();
+            let kd = *ops::kinds_for(rate, dr, e).choose(&mut rng).unwrap();
+            dec_event(ctx, e, kd, k, r, &orig, &rec, &pat, &[0, k - 1, k]);
+        }
+    }
+}
+
+/// C08: every corner configuration of the envelope really encodes and decodes (maximum loss).
+fn family_c08(ctx: &mut Ctx) {
+    let engines = ctx.engines.clone();
+    let mut rng = util::rng(ctx.seed, 8);
+    for (bi, (rate, k, r)) in boundary_configs(true).into_iter().enumerate() {
+        if !ctx.thorough && bi % 3 != (ctx.seed as usize) % 3 && k + r > 10000 {
+            continue;
+        }
+        let dr = ops::default_rate_of(k, r).unwrap_or("none");
+        let sb = if (k + r) * 66 < (8 << 20) && bi % 2 == 0 { 66 } else { 2 };
+        let e = *engines.iter().filter(|e| **e != "naive" || k + r < 20000).collect::<Vec<_>>().choose(&mut rng).unwrap();
+        let kd = *ops::kinds_for(rate, dr, e).choose(&mut rng).unwrap();
+        // sparse data keeps the closed-form evaluation affordable; recovery sampled
+        let mut nz: BTreeSet<usize> = [0, k - 1, k / 2].into_iter().collect();
+        for _ in 0..5 {
+            nz.insert(rng.gen_range(0..k));
+        }
+        let nz: Vec<usize> = nz.into_iter().collect();
+        let mut orig = vec![vec![0u8; sb]; k];
+        for i in &nz {
+            orig[*i] = util::payload(ctx.seed, 88, *i as u64, sb);
+        }
+        let (_, rec) = enc_event(ctx, e, kd, k, r, &orig, Some(&nz), false);
+        if let Some(rec) = rec {
+            if rec.len() == r {
+                let pats = patterns(&mut rng, k, r, 0);
+                let e2 = *engines.iter().filter(|e| **e != "naive" || k + r < 20000).collect::<Vec<_>>().choose(&mut rng).unwrap();
+                let kd2 = *ops::kinds_for(rate, dr, e2).choose(&mut rng).unwrap();
+                dec_event(ctx, e2, kd2, k, r, &orig, &rec, &pats[1], &[0, k - 1, k]);
+            }
+        }
+    }
+}
+
+/// C11 at scale: the same shard set in several arrival orders, and supersets of it.
+fn family_c11(ctx: &mut Ctx) {
+    let engines = ctx.engines.clone();
+    let mut rng = util::rng(ctx.seed, 11);
+    let n = if ctx.thorough { 120 } else { 24 };
+    for t in 0..n {
+        let (k, r) = if t % 4 == 0 {
+            (rng.gen_range(500..2000), rng.gen_range(100..1500))
+        } else {
+            (rng.gen_range(1..120), rng.gen_range(1..120))
+        };
+        let rate = if t % 2 == 0 { "high" } else { "low" };
+        if !crate::dut::supports_rate(rate, k, r) {
+            continue;
+        }
+        let dr = ops::default_rate_of(k, r).unwrap_or("none");
+        let sb = *[2usize, 6, 64].choose(&mut rng).unwrap();
+        let orig = originals(ctx.seed, ctx.counter, k, sb);
+        let rec = crate::dut::ref_encode(rate, k, r, &orig);
+        let all: Vec<(bool, usize)> = (0..k).map(|i| (false, i)).chain((0..r).map(|j| (true, j))).collect();
+        let mut set = all.clone();
+        set.shuffle(&mut rng);
+        // a sufficient set with some originals missing where possible
+        let lost = rng.gen_range(1..=r.min(k));
+        let mut chosen: Vec<(bool, usize)> = set.iter().copied().filter(|x| !x.0).take(k - lost).collect();
+        chosen.extend(set.iter().copied().filter(|x| x.0).take(lost));
+        let e = *engines.choose(&mut rng).unwrap();
+        let kd = *ops::kinds_for(rate, dr, e).choose(&mut rng).unwrap();
+        // orders: originals first, recovery first, sorted descending, two shuffles
+        let mut o1 = chosen.clone();
+        o1.sort();
+        let mut o2 = o1.clone();
+        o2.reverse();
+        let mut o3 = chosen.clone();
+        o3.shuffle(&mut rng);
+        let mut o4 = chosen.clone();
+        o4.shuffle(&mut rng);
+        for o in [&o1, &o2, &o3, &o4] {
+            dec_event(ctx, e, kd, k, r, &orig, &rec, o, &[0, k - 1]);
+        }
+        // supersets: add surplus recovery, surplus originals, everything
+        let mut sup = chosen.clone();
+        for x in set.iter() {
+            if !sup.contains(x) && rng.gen_bool(0.5) {
+                sup.push(*x);
+            }
+        }
+        sup.shuffle(&mut rng);
+        dec_event(ctx, e, kd, k, r, &orig, &rec, &sup, &[0, k - 1]);
+        let mut everything = all.clone();
+        everything.shuffle(&mut rng);
+        dec_event(ctx, e, kd, k, r, &orig, &rec, &everything, &[0, k - 1]);
+        // all originals + some recovery: nothing restored
+        let mut allo: Vec<(bool, usize)> = (0..k).map(|i| (false, i)).collect();
+        allo.extend((0..r).filter(|_| rng.gen_bool(0.5)).map(|j| (true, j)));
+        allo.shuffle(&mut rng);
+        dec_event(ctx, e, kd, k, r, &orig, &rec, &allo, &[0, k - 1]);
+    }
+}
+
+/// C12 at scale: sparse received sets on large configurations, many accessor probes.
+fn family_c12(ctx: &mut Ctx) {
+    let engines = ctx.engines.clone();
+    let mut rng = util::rng(ctx.seed, 12);
+    let n = if ctx.thorough { 60 } else { 12 };
+    for t in 0..n {
+        let (k, r) = if t % 3 == 0 { (rng.gen_range(3000..9000), rng.gen_range(3000..9000)) } else { (rng.gen_range(2..400), rng.gen_range(2..400)) };
+        let rate = if t % 2 == 0 { "high" } else { "low" };
+        if !crate::dut::supports_rate(rate, k, r) {
+            continue;
+        }
+        let dr = ops::default_rate_of(k, r).unwrap_or("none");
+        let orig = originals(ctx.seed, ctx.counter, k, 2);
+        let rec = crate::dut::ref_encode(rate, k, r, &orig);
+        let lost = rng.gen_range(1..=r.min(k));
+        let mut os: Vec<usize> = (0..k).collect();
+        os.shuffle(&mut rng);
+        let mut js: Vec<usize> = (0..r).collect();
+        js.shuffle(&mut rng);
+        let mut arrival: Vec<(bool, usize)> = os.iter().take(k - lost).map(|i| (false, *i)).collect();
+        arrival.extend(js.iter().take(lost).map(|j| (true, *j)));
+        arrival.shuffle(&mut rng);
+        let mut probes: Vec<usize> = (0..40).map(|_| rng.gen_range(0..k + 3)).collect();
+        probes.extend([0, k - 1, k, 65535, 65536, usize::MAX - 1, usize::MAX]);
+        let e = *engines.iter().filter(|e| **e != "naive" || k + r < 2000).collect::<Vec<_>>().choose(&mut rng).unwrap();
+        let kd = *ops::kinds_for(rate, dr, e).choose(&mut rng).unwrap();
+        dec_event(ctx, e, kd, k, r, &orig, &rec, &arrival, &probes);
+    }
+}
+
+// ======================================================================
+// C13 linearity, C04 sizes and slots, C09 default = dedicated
+
+fn xor_shards(a: &[Vec<u8>], b: &[Vec<u8>]) -> Vec<Vec<u8>> {
+    a.iter().zip(b).map(|(x, y)| x.iter().zip(y).map(|(p, q)| p ^ q).collect()).collect()
+}
+
+/// Multiplies every symbol of every shard by the field constant c (table-free shift-and-xor in the
+/// polynomial representation would need the basis change; here the crate's certified exp/log tables
+/// are used - TLC re-checks the relation symbol by symbol with its own arithmetic).
+fn scale_shards(a: &[Vec<u8>], c: u16) -> Vec<Vec<u8>> {
+    use reed_solomon_simd::engine::tables;
+    let el = &*tables::EXP_LOG;
+    let logc = el.log[c as usize];
+    a.iter()
+        .map(|s| {
+            let sb = s.len();
+            let mut out = vec![0u8; sb];
+            let full = sb / 64;
+            let tail = sb % 64;
+            let mut put = |lo: usize, hi: usize, out: &mut Vec<u8>| {
+                let x = u16::from(s[lo]) | (u16::from(s[hi]) << 8);
+                let y = if c == 0 { 0 } else { tables::mul(x, logc, &el.exp, &el.log) };
+                out[lo] = y as u8;
+                out[hi] = (y >> 8) as u8;
+            };
+            for b in 0..full {
+                for l in 0..32 {
+                    put(64 * b + l, 64 * b + 32 + l, &mut out);
+                }
+            }
+            for l in 0..tail / 2 {
+                put(64 * full + l, 64 * full + tail / 2 + l, &mut out);
+            }
+            out
+        })
+        .collect()
+}
+
+fn family_c13(ctx: &mut Ctx) {
+    let engines = ctx.engines.clone();
+    let mut rng = util::rng(ctx.seed, 13);
+    let mut cfgs: Vec<(&str, usize, usize)> = Vec::new();
+    for rate in ["high", "low"] {
+        for (k, r) in [(1, 1), (2, 3), (3, 2), (5, 3), (3, 5), (8, 8), (9, 4), (4, 9), (17, 5), (5, 17), (33, 31), (64, 64), (100, 37), (37, 100), (257, 255)] {
+            if crate::dut::supports_rate(rate, k, r) {
+                cfgs.push((rate, k, r));
+            }
+        }
+    }
+    let extra = if ctx.thorough { 150 } else { 20 };
+    for _ in 0..extra {
+        let k = rng.gen_range(1..300);
+        let r = rng.gen_range(1..300);
+        let rate = if rng.gen_bool(0.5) { "high" } else { "low" };
+        if crate::dut::supports_rate(rate, k, r) {
+            cfgs.push((rate, k, r));
+        }
+    }
+    // boundary configurations (2-byte shards; sampled recovery indexes are the same for the three rounds)
+    for (rate, k, r) in boundary_configs(false).into_iter().skip(2).take(if ctx.thorough { 40 } else { 2 }) {
+        cfgs.push((rate, k, r));
+    }
+    for (ci, (rate, k, r)) in cfgs.into_iter().enumerate() {
+        let dr = ops::default_rate_of(k, r).unwrap_or("none");
+        let big = k + r > 1000;
+        let sb = if big { 2 } else if k + r > 40 { *[2usize, 6].choose(&mut rng).unwrap() } else { *[2usize, 6, 64, 66, 130].choose(&mut rng).unwrap() };
+        let e = engines[(ci + ctx.seed as usize) % engines.len()];
+        let e = if big && e == "naive" { "nosimd" } else { e };
+        let kd = *ops::kinds_for(rate, dr, e).choose(&mut rng).unwrap();
+        ctx.group = Some(ci as i64);
+        let a = originals(ctx.seed, 1000 + ci as u64 * 3, k, sb);
+        let b = originals(ctx.seed, 1001 + ci as u64 * 3, k, sb);
+        let ab = xor_shards(&a, &b);
+        let (la, _) = enc_event(ctx, e, kd, k, r, &a, None, false);
+        let (lb, _) = enc_event(ctx, e, kd, k, r, &b, None, false);
+        let (lab, _) = enc_event(ctx, e, kd, k, r, &ab, None, false);
+        let here = ctx.trace.lines as i64 + 1;
+        ctx.trace.line(&Obj::new().str("ev", "lin").int("g", ci as i64).int("a", la as i64 - here).int("b", lb as i64 - here).int("ab", lab as i64 - here).done());
+        // scalar multiple
+        let c: u16 = if ci % 7 == 0 { 1 } else { rng.gen_range(2..=u16::MAX) };
+        let ca = scale_shards(&a, c);
+        let (lca, _) = enc_event(ctx, e, kd, k, r, &ca, None, false);
+        let here = ctx.trace.lines as i64 + 1;
+        ctx.trace.line(&Obj::new().str("ev", "scal").int("g", ci as i64).int("a", la as i64 - here).int("ca", lca as i64 - here).int("c", i64::from(c)).done());
+        // zero data
+        if ci % 3 == 0 {
+            let z = vec![vec![0u8; sb]; k];
+            enc_event(ctx, e, kd, k, r, &z, Some(&[]), false);
+        }
+    }
+}
+
+fn family_c04(ctx: &mut Ctx) {
+    let engines = ctx.engines.clone();
+    let mut rng = util::rng(ctx.seed, 4);
+    let mut sizes: Vec<usize> = if ctx.thorough { (1..=129).map(|x| x * 2).collect() } else { (1..=66).map(|x| x * 2).collect() };
+    sizes.extend(if ctx.thorough { vec![510, 1022, 4098] } else { vec![190, 254, 258] });
+    let cfgs: [(&str, usize, usize); 6] = [("high", 3, 2), ("low", 2, 3), ("high", 5, 2), ("low", 2, 5), ("high", 1, 1), ("low", 4, 4)];
+    for (si, sb) in sizes.iter().enumerate() {
+        let n = if ctx.thorough { 3 } else { 1 };
+        for t in 0..n {
+            let (rate, k, r) = cfgs[(si + t * 2 + ctx.seed as usize) % cfgs.len()];
+            let dr = ops::default_rate_of(k, r).unwrap_or("none");
+            let e = engines[(si + t) % engines.len()];
+            let kd = *ops::kinds_for(rate, dr, e).choose(&mut rng).unwrap();
+            let orig = originals(ctx.seed, ctx.counter, k, *sb);
+            // every slot of every recovery shard is evaluated by TLC
+            let (_, rec) = enc_event(ctx, e, kd, k, r, &orig, None, true);
+            if let Some(rec) = rec {
+                if rec.len() == r && rec.iter().all(|s| s.len() == *sb) {
+                    // decode at the same size: maximum loss
+                    let pats = patterns(&mut rng, k, r, 1);
+                    let e2 = engines[(si + t + 1) % engines.len()];
+                    let kd2 = *ops::kinds_for(rate, dr, e2).choose(&mut rng).unwrap();
+                    dec_event(ctx, e2, kd2, k, r, &orig, &rec, &pats[1], &[0, k - 1, k]);
+                }
+            }
+        }
+    }
+}
+
+/// C09: default-rate kinds next to the dedicated codec of each rate on the same data.
+fn family_c09(ctx: &mut Ctx) {
+    let engines = ctx.engines.clone();
+    let mut rng = util::rng(ctx.seed, 9);
+    let lim = if ctx.thorough { 24 } else { 12 };
+    let mut cfgs: Vec<(usize, usize)> = Vec::new();
+    for k in 1..=lim {
+        for r in 1..=lim {
+            cfgs.push((k, r));
+        }
+    }
+    // power-of-two boundaries of the rule
+    for p in [32usize, 256, 1024] {
+        for (k, r) in [(p, p), (p + 1, p), (p, p + 1), (p - 1, p), (p, p - 1), (p + 1, p + 1), (2 * p, p + 1), (p + 1, 2 * p), (2 * p, 2 * p - 1)] {
+            cfgs.push((k, r));
+        }
+    }
+    for (ci, (k, r)) in cfgs.into_iter().enumerate() {
+        let Some(dr) = ops::default_rate_of(k, r) else { continue };
+        let sb = if k + r > 200 { 2 } else { *[2usize, 4, 66].choose(&mut rng).unwrap() };
+        let orig = originals(ctx.seed, ctx.counter, k, sb);
+        let e = engines[(ci + ctx.seed as usize) % engines.len()];
+        ctx.group = Some(ci as i64);
+        // default-rate family member
+        let fam: Vec<Option<Kind>> = if e == "default" { vec![Some(Kind::Default), Some(Kind::Rs), None] } else { vec![Some(Kind::Default)] };
+        let kd = fam[ci % fam.len()];
+        let (l1, rec1) = enc_event(ctx, e, kd, k, r, &orig, None, false);
+        // the dedicated codec the code's own rule names, reference engine
+        let ded = if dr == "high" { Kind::High } else { Kind::Low };
+        let (l2, _) = enc_event(ctx, "naive", Some(ded), k, r, &orig, None, false);
+        let here = ctx.trace.lines as i64 + 1;
+        ctx.trace.line(&Obj::new().str("ev", "same").int("g", ci as i64).int("a", l1 as i64 - here).int("b", l2 as i64 - here).done());
+        // decode dedicated-encoded shards with the default-rate family
+        if let Some(rec) = rec1 {
+            if ci % 2 == 0 && rec.len() == r {
+                let pats = patterns(&mut rng, k, r, 1);
+                let reference = crate::dut::ref_encode(dr, k, r, &orig);
+                dec_event(ctx, e, kd, k, r, &orig, &reference, &pats[1], &[0, k - 1, k]);
+            }
+        }
+    }
+}
+
 pub fn main(args: &Args) -> i32 {
     let seed = args.num("seed", 1);
     let out = args.req("out");
@@ -332,10 +860,18 @@ pub fn main(args: &Args) -> i32 {
         thorough: args.thorough(),
         engines,
         counter: 0,
+        group: None,
         stats: Default::default(),
     };
     match args.req("family") {
         "c02" => family_c02(&mut ctx),
+        "c01" => family_c01(&mut ctx),
+        "c04" => family_c04(&mut ctx),
+        "c08" => family_c08(&mut ctx),
+        "c09" => family_c09(&mut ctx),
+        "c11" => family_c11(&mut ctx),
+        "c12" => family_c12(&mut ctx),
+        "c13" => family_c13(&mut ctx),
         other => {
             eprintln!("unknown family {other}");
             return 2;
